@@ -281,7 +281,7 @@ def check_c18(v, d):
     pargs = ["parse", "-in", sp, "-trailing", "-mutations", "2" if quick else "8", "-enum", "3",
              "-enum-keep", "0.02" if quick else "1", "-subst-keep", "1"]
     hargs = ["history", "-in", sp] + (["-bases", "40", "-probes", "12", "-random", "400", "-long", "3", "-long-len", "40000", "-long-every", "1000"] if quick
-                                      else ["-bases", "160", "-probes", "30", "-random", "6000", "-long", "8", "-long-len", "150000", "-long-every", "2500"])
+                                      else ["-bases", "160", "-probes", "30", "-random", "6000", "-long", "8", "-long-len", "150000", "-long-every", "2500", "-sem-rejected", "300"])
 
     def part(args, tag, per_chunk):
         trace, st = run_driver("parsedrv", args, d, tag)
